@@ -11,6 +11,8 @@ import (
 	"sort"
 	"strconv"
 	"strings"
+	"unicode"
+	"unicode/utf8"
 
 	"golang.org/x/mod/module"
 )
@@ -155,11 +157,22 @@ func ParseDirective(line string) (args string, ok bool) {
 	return strings.TrimSpace(line[len("go:embed"):]), true
 }
 
+// spaceAt reports the width of the white-space rune at s[i:], 0 if there is
+// none: like the go tool, arguments are separated by any Unicode white space
+// (unicode.IsSpace), not only by blanks and tabs.
+func spaceAt(s string, i int) int {
+	r, w := utf8.DecodeRuneInString(s[i:])
+	if unicode.IsSpace(r) {
+		return w
+	}
+	return 0
+}
+
 func SplitArgs(s string) ([]string, error) {
 	var out []string
 	for i := 0; i < len(s); {
-		for i < len(s) && (s[i] == ' ' || s[i] == '\t') {
-			i++
+		for i < len(s) && spaceAt(s, i) > 0 {
+			i += spaceAt(s, i)
 		}
 		if i >= len(s) {
 			break
@@ -184,16 +197,17 @@ func SplitArgs(s string) ([]string, error) {
 			if !closed {
 				return nil, fmt.Errorf("invalid //go:embed quoted pattern")
 			}
-			// as in the go tool, a quoted pattern must be followed by a blank
-			// or end the line ("a"b is malformed, not two patterns)
-			if i < len(s) && s[i] != ' ' && s[i] != '\t' {
+			// as in the go tool, a quoted pattern must be followed by white
+			// space or end the line ("a"b is malformed, not two patterns)
+			if i < len(s) && spaceAt(s, i) == 0 {
 				return nil, fmt.Errorf("invalid //go:embed quoted pattern")
 			}
 			out = append(out, s[start:i])
 			continue
 		}
-		for i < len(s) && s[i] != ' ' && s[i] != '\t' {
-			i++
+		for i < len(s) && spaceAt(s, i) == 0 {
+			_, w := utf8.DecodeRuneInString(s[i:])
+			i += w
 		}
 		out = append(out, s[start:i])
 	}
